@@ -449,6 +449,7 @@ Section DatastoreProofs.
   Let bufsz := S b.
   Definition DInv (ss : list (list ev)) (d : ds) : Prop := Forall2 (fun l st => SInv l st) ss (ds_inst d).
 
+  Opaque sys_step.
   Lemma dinv_inst_step : forall ss d i o, DInv ss d -> DInv ss (snd (inst_step bufsz i o d)).
   Proof.
     intros ss d i o H. unfold inst_step. destruct (nth_error (ds_inst d) i) as [st|] eqn:En; [|exact H].
@@ -486,7 +487,7 @@ Section DatastoreProofs.
         destruct (Forall2_nth _ _ _ _ _ _ _ H En) as [l [Hl Hs]].
         pose proof (sinv_step b l ShClone st Hs) as H1. fold bufsz in H1.
         destruct (sys_step bufsz ShClone st) as [r st1]. simpl in H1.
-        destruct r as [[c|] [e|]]; try (exists []; now rewrite app_nil_r).
+        destruct r as [[c|] [e|]]; try (exists []; rewrite app_nil_r; exact Hby).
         exists []. rewrite app_nil_r. unfold DInv. simpl. eapply Forall2_set_nth; eauto.
       + destruct (take_script d) as [[l|] rest].
         * pose proof (sinv_step b l ShClone (sys_init l) (sinv_init l)) as H1. fold bufsz in H1.
@@ -531,4 +532,5 @@ Section DatastoreProofs.
     destruct (next_open_clone b l st c cl Hinv Hc Hs) as [N1 _]. fold bufsz in N1.
     destruct (sys_step bufsz (ShNext c false) st) as [r st1]. simpl in *. exact N1.
   Qed.
+  Transparent sys_step.
 End DatastoreProofs.
